@@ -44,15 +44,19 @@ Print Assumptions run_paths_deadlock_free.
 Theorem findtype_linearizable :
   forall (key val : Type) (key_eqb : key -> key -> bool),
     (forall a b, reflect (a = b) (key_eqb a b)) ->
-  forall (oracle : key -> option val) (c0 : cache key val) (ks : list key) (s : cstate key val),
+  forall (oracle : key -> option val) (c0 : cache key val) (ks : list (key * depans val)) (s : cstate key val),
+    (* where the dependencies of the calling package and the importer both resolve a name, they agree *)
+    (forall k d, In (k, d) ks -> consistent oracle k d) ->
     sreach key_eqb oracle (cinit c0 ks) s ->
     (* every finished call returned what the sequential execution of the same calls returns *)
     (forall i x r, nth_error (calls s) i = Some x -> cpc x = Done r ->
                    nth_error (fst (run_seq key_eqb oracle c0 ks)) i = Some r) /\
+    (* ... which is what the call returns when it is made alone on the initial cache *)
+    (forall x r, In x (calls s) -> cpc x = Done r -> r = spec key_eqb oracle c0 (ckey x) (cdep x)) /\
     (* the cache extends the initial one and holds only correct entries *)
     good key_eqb oracle c0 (ccache s) /\
-    (* the entry of a successful call is in the cache *)
-    (forall x v, In x (calls s) -> cpc x = Done (Some v) -> lookup key_eqb (ckey x) (ccache s) = Some v).
+    (* an answer of the importer is in the cache *)
+    (forall x v, In x (calls s) -> cpc x = Done (Some v) -> cdep x = None -> lookup key_eqb (ckey x) (ccache s) = Some v).
 Proof. intros key val key_eqb H. exact (Cache.findtype_linearizable key val key_eqb H). Qed.
 Print Assumptions findtype_linearizable.
 
@@ -124,22 +128,23 @@ Proof. reflexivity. Qed.
 (* the cache protocol: a concrete oracle, two concurrent misses of one key *)
 Example cache_example :
   let oracle := fun k : N => if N.eqb k 5 then None else Some (k * 2) in
-  fst (run_seq N.eqb oracle [(1, 100)] [1; 2; 5; 2]) = [Some 100; Some 4; None; Some 4].
+  fst (run_seq N.eqb oracle [(1, 100)] [(1, None); (2, None); (5, None); (2, Some (Some 4)); (6, Some None)])
+  = [Some 100; Some 4; None; Some 4; None].
 Proof. reflexivity. Qed.
 
-(* With a context-independent oracle the implementation's sequential behaviour is the one the theorem speaks about *)
-Theorem run_dep_is_run_seq :
-  forall (key val ctx : Type) (key_eqb : key -> key -> bool) (oracle2 : ctx -> key -> option val) (p0 : ctx),
-    (forall p q k, oracle2 p k = oracle2 q k) ->
-    forall ops c, run_dep key_eqb oracle2 c ops = run_seq key_eqb (oracle2 p0) c (map snd ops).
-Proof. exact Cache.run_dep_indep. Qed.
-Print Assumptions run_dep_is_run_seq.
+(* sequentially, in any order and after any history, FindType answers what it answers alone *)
+Theorem history_independent :
+  forall (key val ctx : Type) (key_eqb : key -> key -> bool),
+    (forall a b, reflect (a = b) (key_eqb a b)) ->
+  forall (oracle : key -> option val) (dep : ctx -> key -> option (option val)),
+    (forall p k, consistent oracle k (dep p k)) ->
+    forall c0 ops, fst (run_dep key_eqb oracle dep c0 ops) = map (lone key_eqb oracle dep c0) ops.
+Proof. intros key val ctx key_eqb H. exact (Cache.history_independent key val ctx key_eqb H). Qed.
+Print Assumptions history_independent.
 
-(* ... and the hypothesis matters: when only some calling contexts can resolve a name (a type of the analysed module
-   that the engine's importer cannot import), a warm cache masks the error a lone call reports.
-   This is the known finding c08-typecache-masks-unresolvable-fqn. *)
-Example lone_equivalence_refuted_for_context_dependent_oracle :
-  let oracle2 := fun (p : bool) (k : N) => if p then Some 1 else None in
-  fst (run_dep N.eqb oracle2 [] [(true, 7); (false, 7)]) = [Some 1; Some 1]
-  /\ lone N.eqb oracle2 [] (false, 7) = None.
-Proof. split; reflexivity. Qed.
+(* a name only the dependencies of some packages resolve: answered for them, an error for the others, whatever the order *)
+Example dependency_answers_are_not_cached :
+  let imp := fun k : N => if N.eqb k 9 then Some 90 else None in
+  let dep := fun (p : bool) (k : N) => if p && N.eqb k 7 then Some (Some 1) else None in
+  run_dep N.eqb imp dep [] [(true, 7); (false, 7); (false, 9); (true, 7)] = ([Some 1; None; Some 90; Some 1], [(9, 90)]).
+Proof. reflexivity. Qed.
